@@ -32,6 +32,11 @@ class CallErr(Exception):
     pass
 
 
+class CallBaseErr(BaseException):
+    """Raised by a portal callable: not an Exception, not a cancellation.  The caller must get it; the portal's task group
+    fails with it by design ("let base exceptions fall through"), which takes the other calls down with it."""
+
+
 # (No falsy exception objects here, unlike engines/sc.py and engines/threads_to.py: portal calls are answered through
 # concurrent.futures.Future, whose own result() tests `if self._exception:` - CPython loses such an exception before
 # anyio is involved.)
@@ -49,10 +54,13 @@ def gen_case(seed, tier, prop="C15"):
         if rng.random() < 0.25:
             prog.insert(rng.randint(0, len(prog)), ["stop", rng.random() < 0.5])
         callers.append(prog)
+    if rng.random() < 0.06:
+        prog = rng.choice(callers)
+        prog[rng.randrange(len(prog))] = ["fail_base", 0]
     loop = LoopConfig(eager=rng.random() < 0.25, cap=30000, p_late=rng.choice([0, 0, 0.2])).to_json()
     mode = rng.choice(["inline", "thread", "thread"])
     leave_early = rng.random() < 0.4
-    if mode == "inline" or leave_early or any(op[0] == "stop" for prog in callers for op in prog):
+    if mode == "inline" or leave_early or any(op[0] in ("stop", "fail_base") for prog in callers for op in prog):
         # a wrapped context manager must be left while the portal is still running (anything else is a usage error)
         for prog in callers:
             for op in prog:
@@ -94,7 +102,7 @@ def _patch_portal_exit():
                     else:
                         leaves.append(e)
                 walk(eg)
-                bad = [e for e in leaves if not isinstance(e, CallErr)]
+                bad = [e for e in leaves if not isinstance(e, (CallErr, CallBaseErr))]
                 if bad:
                     run.v("portal_crashed", "the portal's task group failed with " + "; ".join(repr(e)[:160] for e in bad[:3])
                           + " - every other call through the portal is cancelled or refused from then on",
@@ -118,6 +126,7 @@ class PortalRun:
         self.context_left = False
         self.context_left_begun = False
         self.cancel_stop_begun = False
+        self.base_raised = False
         self.loop = None
 
     def v(self, rule, detail, sig=None):
@@ -203,6 +212,18 @@ class PortalRun:
                 st["running"] = False
                 st["done"] = True
 
+        async def ffailbase():
+            enter()
+            try:
+                await checkpoint()
+                exc = CallBaseErr(cid)
+                st["raised"] = exc
+                run.base_raised = True
+                raise exc
+            finally:
+                st["running"] = False
+                st["done"] = True
+
         async def fselfcancel():
             # ends with the backend's cancellation exception although nobody cancelled its future or the portal (it
             # awaited something that was cancelled natively): that is this call's own outcome and nobody else's
@@ -239,7 +260,7 @@ class PortalRun:
                 st["done"] = True
 
         return {"sync": fsync, "coro": fcoro, "coro_sleep": fsleep, "fail": ffail, "wait_release": fwait, "soon": fsleep,
-                "self_cancel": fselfcancel, "soon_cancel": fsleep, "soon_late_cancel": fwait, "start": fstart, "start_fail": fstart, "start_nostarted": fstart}[kind]
+                "self_cancel": fselfcancel, "fail_base": ffailbase, "soon_cancel": fsleep, "soon_late_cancel": fwait, "start": fstart, "start_fail": fstart, "start_nostarted": fstart}[kind]
 
     class CM:
         def __init__(self, run, cid):
@@ -299,6 +320,16 @@ class PortalRun:
                 if kind in ("sync", "coro", "coro_sleep", "wait_release"):
                     r = portal.call(fn)
                     self.check_value(cid, r)
+                elif kind == "fail_base":
+                    try:
+                        portal.call(fn)
+                        self.v("result", f"call {cid}: the callable raised a BaseException but portal.call() returned normally")
+                    except CallBaseErr as e:
+                        if e is not st.get("raised"):
+                            self.v("result", f"call {cid}: portal.call() raised {e!r}, not the callable's own exception")
+                        else:
+                            self.bump("base_exception_delivered")
+                        st["outcome"] = "raised"
                 elif kind == "self_cancel":
                     try:
                         portal.call(fn)
@@ -400,7 +431,7 @@ class PortalRun:
                 self.h.rec("refused", cid)
                 if st["exec"]:
                     self.v("refused_but_ran", f"call {cid} was refused with RuntimeError({e}) although the callable was executed")
-                elif not (self.stop_begun or self.context_left_begun):
+                elif not (self.stop_begun or self.context_left_begun or self.cancel_remaining_possible()):
                     self.v("refused_running", f"call {cid} was refused with RuntimeError({e}) although the portal had not been stopped")
                 else:
                     self.bump("refused_after_stop")
@@ -416,7 +447,8 @@ class PortalRun:
             self.h.rec("done", cid, st["outcome"])
 
     def cancel_remaining_possible(self):
-        return self.faults.get("portal_stop_cancel_remaining", 0) > 0 or self.case["exit_with_error"] or self.cancel_stop_begun
+        return (self.faults.get("portal_stop_cancel_remaining", 0) > 0 or self.case["exit_with_error"] or self.cancel_stop_begun
+                or self.base_raised or any(op[0] == "fail_base" for prog in self.case["callers"] for op in prog))
 
     def check_value(self, cid, r):
         st = self.calls[cid]
@@ -534,7 +566,7 @@ class PortalRun:
 
         def snapshot():
             snap["waiting"] = [dict(cid=cid, exec=st["exec"], kind=st["kind"], stop_begun_at_issue=st["stop_begun_at_issue"],
-                                    stop_begun_now=self.stop_begun, in_cancel=bool(st.get("in_cancel")))
+                                    stop_begun_now=self.stop_begun or self.base_raised, in_cancel=bool(st.get("in_cancel")))
                                for cid, st in self.calls.items() if st.get("waiting")]
         sched.on_deadlock.append(snapshot)
         outcome = "ok"
@@ -556,9 +588,24 @@ class PortalRun:
                         sim.loop = self._make_loop()
                         return sim.loop
                     sim._factory = factory
-                    sim.run(self.inline_main)
+                    try:
+                        sim.run(self.inline_main)
+                    except BaseExceptionGroup as eg:
+                        sim.outcome, sim.error = "exc", eg       # (SimRun only converts Exception subclasses)
                     outcome = sim.outcome
                     err = sim.error
+                    if outcome == "exc" and self.base_raised and isinstance(err, BaseException):
+                        ls = []
+
+                        def walk(e):
+                            if isinstance(e, BaseExceptionGroup):
+                                for x in e.exceptions:
+                                    walk(x)
+                            else:
+                                ls.append(e)
+                        walk(err)
+                        if ls and all(isinstance(x, CallBaseErr) for x in ls):
+                            outcome, err = "ok", None       # the portal failed with the callable's BaseException, as designed
                     simset.set_rng(random.Random(f"set2:{seed}"), self.faults)
                     if outcome == "ok":
                         for t in self.ths:
@@ -580,7 +627,7 @@ class PortalRun:
         if sched.deadlock:
             waiting = snap.get("waiting", [])
             parked_in_call = all(("future.result" in part or "join" in part) for part in sched.deadlock.split(": ", 1)[-1].split(", "))
-            f8 = (self.stop_begun or self.context_left_begun) and parked_in_call and all(
+            f8 = (self.stop_begun or self.context_left_begun or self.base_raised) and parked_in_call and all(
                 (w["exec"] == 0 or w["in_cancel"]) and w["stop_begun_now"] for w in waiting)
             self.v("stuck", f"deadlock: {sched.deadlock}; calls still waiting for an answer: {waiting}",
                    sig="C15.stuck:" + ("call-raced-with-loop-shutdown" if f8 else "deadlock"))
